@@ -1,5 +1,6 @@
+use std::collections::HashSet;
 use std::ops::ControlFlow;
-use std::sync::{Arc, RwLock};
+use std::sync::{Arc, Mutex, RwLock};
 
 use async_lsp::lsp_types::{
     notification, request, CompletionOptions, CompletionParams, CompletionResponse,
@@ -26,6 +27,8 @@ pub struct Server {
     vfs: Arc<RwLock<Vfs>>,
     client: ClientSocket,
     diagnostic_version: i32,
+    /// documents whose diagnostics were published last time
+    published_files: Arc<Mutex<HashSet<Url>>>,
 }
 
 impl Server {
@@ -58,6 +61,7 @@ impl Server {
             vfs: Arc::new(RwLock::new(Vfs::new())),
             client,
             diagnostic_version: 0,
+            published_files: Arc::new(Mutex::new(HashSet::new())),
         }
     }
 }
@@ -345,7 +349,9 @@ impl Server {
     fn update_diagnostics(&mut self) {
         let diag_version = self.bump_diagnostic_version();
         let mut client = self.client.clone();
+        let published_files = Arc::clone(&self.published_files);
         self.spawn_with_snapshot((), move |snap, _| {
+            let mut current_files = HashSet::new();
             for (file_id, diagnostics) in snap.analysis.diagnostics() {
                 let line_index = snap.analysis.line_index(file_id);
                 let lsp_diags = diagnostics
@@ -362,13 +368,25 @@ impl Server {
                     crate::verif::Event::VfsReadReleased,
                 );
                 let file_path = vfs.path_for_file(&file_id);
-                let file_uri = UrlExt::from_file_path(file_path);
+                let file_uri: Url = UrlExt::from_file_path(file_path);
 
+                current_files.insert(file_uri.clone());
                 let params = PublishDiagnosticsParams::new(file_uri, lsp_diags, Some(diag_version));
                 client
                     .publish_diagnostics(params)
                     .expect("failed to publish diagnostics");
             }
+
+            // a document that dropped out of the workspace must not keep its last diagnostics
+            let mut published_files = published_files.lock().unwrap();
+            for file_uri in published_files.difference(&current_files) {
+                let params =
+                    PublishDiagnosticsParams::new(file_uri.clone(), Vec::new(), Some(diag_version));
+                client
+                    .publish_diagnostics(params)
+                    .expect("failed to publish diagnostics");
+            }
+            *published_files = current_files;
         });
     }
 
